@@ -57,6 +57,14 @@ def handleC14C15 : List String → Option String
       match Timeout.decodeTimeout Gen.timeoutUnits Gen.timeoutMinLen Gen.timeoutMaxLen Gen.timeoutAcceptsSign b with
       | .ok v => "ok " ++ toString v
       | _ => "err"
+  | ["gate", h] =>
+      -- what serveGRPC does with the grpc-timeout header ("!" = no such header)
+      let hdr : Option (Option Bytes) := if h == "!" then some none else (hexArg h).map some
+      hdr.map fun hv =>
+        match Timeout.timeoutGate (Timeout.decodeTimeout Gen.timeoutUnits Gen.timeoutMinLen Gen.timeoutMaxLen Gen.timeoutAcceptsSign) hv with
+        | .refused => "refused"
+        | .run none => "run none"
+        | .run (some d) => "run " ++ toString d
   | ["bindec", h] => (hexArg h).map fun b => optHex (Metadata.decodeBin Gen.binPaddedWhenMul4 b)
   | ["binenc", h] => (hexArg h).map fun b => toHex (Metadata.encodeBin b)
   | ["canon", h] => (hexArg h).map fun b => toHex (Metadata.canonical b)
